@@ -74,7 +74,11 @@ class Passwords:
 
     async def _check_password(self, identity: Identity,
                               credentials: ServerCredentials) -> bool:
-        return credentials.verify(identity)
+        try:
+            return credentials.verify(identity)
+        except ValueError:
+            # e.g. characters prohibited by the password preparation
+            return False
 
 
 @dataclass(frozen=True)
